@@ -81,4 +81,9 @@ LEVELS = {
         "text": "All three gradient/MH samplers are driven on bounded-support and NaN-region targets with proposals, step sizes and start points chosen to produce hostile candidates (counted in the evidence); every resulting state is classified by an independent f64 copy of the density.",
         "note": "Acceptance draws equal to 0 excluded per the statement; near-boundary states inconclusive.",
     },
+    "C10": {
+        "technique": "runtime monitoring: offline checker over the sequence-numbered protocol event log + online bounded-progress guard (logical clock), twin comparison of draws, receiver-drop fault injection",
+        "text": "Each run_progress call is observed through protocol events and checked for exactly-once final messages, worker completion and bounded reporter progress under generated chain counts and speed profiles; draws and diagnostics are compared with run() twins across precisions; receiver faults are injected at three points.",
+        "note": "Schedules are produced, not enumerated; the guard bound 2n+8 is far above the <= ceil(n/5)+2 iterations the unchanged code needs.",
+    },
 }
